@@ -158,6 +158,8 @@ def reduce_op(name):
 
 for _n in ("sum", "prod", "max", "min", "any", "all", "nansum", "nanmax", "nanmin", "nanprod"):
     reduce_op(_n)
+op("mean", 1, lambda p, x: None, lambda p, x: _sp().mean(x, axis=_ax(p["axis"]), keepdims=p["keepdims"]), gen_reduce,
+   ret="noref", fill="unknown")
 
 
 def elem1(name, np_fn, sp_fn, gen=None):
@@ -506,7 +508,7 @@ op("random", 0, lambda p: None,
    lambda rng, xs, ctx: dict(gen_cshape(rng, xs, ctx), density=rng.choice([0.0, 0.1, 0.5, 0.9, 1.0]), seed=rng.randint(0, 10 ** 6),
                              fv=rng.choice([None, None, 2]), ints=rng.random() < 0.7), ret="noref", fill="unknown")
 
-SWEEP_ONLY = {"random", "unique_values", "unique_counts", "nonzero", "argmax", "argmin", "nansum", "nanmax", "nanmin",
+SWEEP_ONLY = {"random", "mean", "unique_values", "unique_counts", "nonzero", "argmax", "argmin", "nansum", "nanmax", "nanmin",
               "nanprod", "isnan", "todense"}
 
 
@@ -527,6 +529,7 @@ class Gen:
         self.wild = wild
         self.formats = formats
         self.nan = nan
+        self.special = None  # a NaN / inf / -0.0 fill value: float64 operands with that fill
         self.narrow = 0.25   # share of operands built with int8 / uint8 / int16 coordinates
         self.maxsize = 400
         self.inputs = []
@@ -536,10 +539,15 @@ class Gen:
     def new_input(self, shape=None, fill=None, fmt=None, ndim=None):
         rng = self.rng
         ext = (0, 1, 2, 3) if self.wild and rng.random() < 0.3 else (1, 2, 3)
+        if self.special is not None and fill is None:
+            fill = self.special
         spec = vlib.gen_array_spec(rng, shape=shape, ndim=ndim, extents=ext, fills=(fill,) if fill is not None else FILLS,
                                    formats=(fmt,) if fmt else self.formats, max_ndim=4 if self.wild else 3)
         if rng.random() < self.narrow and spec["format"] != "dok":
             spec["idx_dtype"] = rng.choice(["int8", "uint8", "int16"])
+        if self.special is not None:
+            spec["dtype"] = "float64"
+            spec["data"] = [float(v) for v in spec["data"]]
         if self.nan:
             spec["dtype"] = "float64"
             spec["data"] = [float("nan") if rng.random() < 0.3 else v for v in spec["data"]]
@@ -676,6 +684,8 @@ class Gen:
             fill = 0
         elif o["fill"] == "elem" and all(f is not None for f in fills):
             try:
+                import warnings
+                warnings.simplefilter("ignore")
                 fv = np.asarray(o["np"](p, *[np.asarray(f, dtype=x.dtype) for f, x in zip(fills, xs, strict=True)]))
                 fill = vlib.val_token(fv.reshape(-1)[0]) if fv.size == 1 else None
             except Exception:  # noqa: BLE001
@@ -914,6 +924,79 @@ def gen_narrow(rng, tier):
     return cases
 
 
+def gen_special(rng, tier):
+    """float operands whose fill value is NaN, +inf or -0.0 (tokens, compared as `_utils.equivalent` does: all NaNs equal,
+    0.0 != -0.0): (i) arrays with complete / partial / empty groups reduced (sum, prod, max, min, mean) over every proper
+    axis subset, in COO and every GCXS compression; (ii) element-wise operations that produce the fill, getitem, conversions;
+    (iii) composed programs.  Judged: canonical form, no stored fill value, nnz = #non-fill (no value reference: float
+    arithmetic on inf / signed zeros is not part of the property)"""
+    nan, inf = float("nan"), float("inf")
+    cases = []
+    fills = [nan, inf, -0.0]
+
+    def fspec(arr, fill, fmt, ca):
+        import itertools
+        np = _np()
+        a = np.array(arr, dtype="float64")
+        def isfill(v):
+            return (v != v) if fill != fill else (v == fill and np.signbit(v) == np.signbit(fill))
+        pos = [ix for ix in itertools.product(*[range(d) for d in a.shape]) if not isfill(a[ix])]
+        return {"shape": list(a.shape), "coords": [list(p_) for p_ in pos], "data": [float(a[p_]) for p_ in pos], "fill": fill,
+                "format": fmt, "caxes": ca, "dtype": "float64"}
+
+    def add(g):
+        c = g.program()
+        c["special"] = True
+        cases.append(c)
+
+    for fill in fills:
+        F = fill
+        a2 = [[1.0, 2.0, 3.0, 4.0], [F, 5.0, F, 6.0], [F, F, F, F], [7.0, 8.0, 9.0, 1.5]]
+        a3 = [[[1.0, F], [2.0, 3.0], [F, F]], [[F, 4.0], [F, F], [5.0, 6.0]]]
+        shapes = [(a2, [("coo", None), ("gcxs", [0]), ("gcxs", [1])]),
+                  (a3, [("coo", None), ("gcxs", [0]), ("gcxs", [1]), ("gcxs", [0, 2]), ("gcxs", [1, 2])])]
+        for arr, fmts in shapes:
+            nd = 2 if arr is a2 else 3
+            axes = [[a_] for a_ in range(nd)] + ([[0, 1], [0, 2], [1, 2]] if nd == 3 else []) + [None]
+            for fmt, ca in fmts:
+                for name in ("sum", "prod", "max", "min", "mean"):
+                    for ax in (axes if tier != "quick" else rng.sample(axes, 2)):
+                        g = Gen(rng, wild=False)
+                        g.narrow = 0.0
+                        g.add_spec(fspec(arr, fill, fmt, ca))
+                        p = {"axis": ax if ax is None or len(ax) > 1 else ax[0], "keepdims": rng.random() < 0.25}
+                        if g.try_step(name, force_p=p, force_args=[0]):
+                            add(g)
+                # element-wise results equal to the fill, indexing, conversions
+                el = [("add_scalar", {"c": fill}), ("mul_scalar", {"c": -0.0 if fill == 0 else 1.0}), ("mul_scalar", {"c": 0.0}),
+                      ("negative", {}), ("abs", {}), ("getitem", {"idx": [["s", 1, None, None]]}), ("getitem", {"idx": [["i", 1]]}),
+                      ("asformat", {"fmt": "gcxs", "ca": [nd - 1], "idt": None}), ("asformat", {"fmt": "coo", "ca": None, "idt": None}),
+                      ("tocoo", {}), ("T", {}), ("flatten", {}), ("eq_scalar", {"c": 5.0}), ("gt_scalar", {"c": 2.0})]
+                for name, p in (el if tier != "quick" else rng.sample(el, 5)):
+                    g = Gen(rng, wild=False)
+                    g.narrow = 0.0
+                    g.add_spec(fspec(arr, fill, fmt, ca))
+                    if g.try_step(name, force_p=p, force_args=[0]):
+                        add(g)
+    # composed programs over special-fill operands
+    n = 45 if tier == "quick" else 500
+    names = [n_ for n_ in OPS if n_ not in SWEEP_ONLY and not OPS[n_]["zero"] and n_ not in ("astype", "round", "clip", "pad", "sort", "take",
+                                                                                             "full", "eye", "ones", "zeros", "full_like", "ones_like")]
+    for k in range(n):
+        g = Gen(rng, wild=False, formats=("coo", "gcxs", "gcxs"))
+        g.narrow = 0.0
+        g.special = fills[k % 3]
+        g.new_input()
+        depth = rng.randint(2, 4 if tier == "quick" else 6)
+        tries = 0
+        while len(g.steps) < depth and tries < depth * 8:
+            tries += 1
+            g.try_step(rng.choice(names + ["sum", "sum", "max", "prod", "min"]))
+        if g.steps:
+            add(g)
+    return cases
+
+
 def gen_programs(rng, tier):
     """(b): composed programs"""
     n = 240 if tier == "quick" else 3000
@@ -1071,6 +1154,34 @@ def impl_run(case):
 
 
 # =============================================================================== campaign
+NAN_TOKEN = (1 << 70) + 0x7FF8000000000000
+
+
+def norm_tok(v):
+    """every NaN (any sign / payload) is ONE token, as for `_utils.equivalent`; other tokens (+-inf, -0.0, non-integral
+    floats) keep their bit pattern, so 0.0 and -0.0 stay different"""
+    if isinstance(v, int) and v >= (1 << 70):
+        bits = v - (1 << 70)
+        if bits < (1 << 64) and (bits & 0x7FF0000000000000) == 0x7FF0000000000000 and (bits & 0x000FFFFFFFFFFFFF):
+            return NAN_TOKEN
+    return v
+
+
+def norm_plain(p):
+    if not isinstance(p, dict):
+        return p
+    q = dict(p)
+    for k in ("data", "flat"):
+        if k in q and isinstance(q[k], list):
+            q[k] = [norm_tok(v) for v in q[k]]
+    for k in ("fill", "v"):
+        if k in q:
+            q[k] = norm_tok(q[k])
+    if "items" in q:
+        q["items"] = [[kk, norm_tok(v)] for kk, v in q["items"]]
+    return q
+
+
 def is_pruned(p):
     k = p.get("k")
     if k in ("coo", "gcxs"):
@@ -1083,7 +1194,7 @@ def is_pruned(p):
 def render(case, upto):
     """a self-contained Python program reproducing steps 0..upto of a case"""
     lines = ["import numpy as np, sparse, sys; sys.path.insert(0, '/verif/tools'); import vlib; from props.c06 import OPS",
-             "nan = float('nan')",
+             "nan = float('nan'); inf = float('inf')",
              f"ins = [vlib.build_array(s, dtype=s.get('dtype', 'int64'), idx_dtype=s.get('idx_dtype')) for s in {case['inputs']!r}]", "outs = []"]
     for st in case["steps"][:upto + 1]:
         lines.append(f"outs.append(OPS[{st['op']!r}]['sp']({st['p']!r}, *[ins[i] if k == 'in' else outs[i] for k, i in {st['args']!r}]))")
@@ -1099,7 +1210,7 @@ CODE_TEXT = {1: "raw result not in canonical/self-consistent form", 5: "GCXS row
 
 def campaign(build, tier, seed, report, budget=1):
     rng = random.Random(seed)
-    cases = (gen_directed(rng, tier) + gen_narrow(rng, tier) + gen_sweep(rng, tier) + gen_programs(rng, tier) + gen_ctor(rng, tier) + gen_csr(rng, tier)
+    cases = (gen_directed(rng, tier) + gen_narrow(rng, tier) + gen_special(rng, tier) + gen_sweep(rng, tier) + gen_programs(rng, tier) + gen_ctor(rng, tier) + gen_csr(rng, tier)
              + gen_cscnd(rng, tier) + gen_scipy(rng, tier))
     if budget > 1:
         cases += gen_programs(random.Random(seed + 1), tier) + gen_sweep(random.Random(seed + 2), tier)
@@ -1126,14 +1237,19 @@ def campaign(build, tier, seed, report, budget=1):
                              "what": "operation did not return (watchdog)", "case": c, "impl": r,
                              "replay_py": render(c, len(c["steps"]) - 1)})
             continue
+        r["inputs"] = [norm_plain(p) for p in r["inputs"]]
+        r["results"] = [norm_plain(p) for p in r["results"]]
         plains = {("in", i): p for i, p in enumerate(r["inputs"])}
         for si, p in enumerate(r["results"]):
             st = c["steps"][si]
             plains[("st", si)] = p
             pruned_in = all(is_pruned(plains[tuple(a)]) for a in st["args"])
-            ref = c["refs"][si] if (not c.get("sweep") or c.get("with_ref")) else None
+            ref = c["refs"][si] if (not c.get("sweep") or c.get("with_ref")) and not c.get("special") else None
             kindtag = p.get("k")
-            tag(f"{'sweep' if c.get('sweep') else 'narrow' if c.get('narrow') else 'prog'}/{st['op']}/{kindtag}")
+            tag(f"{'sweep' if c.get('sweep') else 'narrow' if c.get('narrow') else 'special' if c.get('special') else 'prog'}/{st['op']}/{kindtag}")
+            if c.get("special") and kindtag in ("coo", "gcxs"):
+                tag("special-fill/" + {NAN_TOKEN: "nan"}.get(p.get("fill"), "inf" if p.get("fill") == (1 << 70) + 0x7FF0000000000000 else
+                                                              "-0.0" if p.get("fill") == (1 << 70) + 0x8000000000000000 else "other"))
             if kindtag in ("coo", "gcxs"):
                 tag("idx_dtype/" + str(p.get("idx_dtype")))
                 if c.get("narrow") and kindtag == "gcxs":
@@ -1291,7 +1407,7 @@ def campaign(build, tier, seed, report, budget=1):
     agg = {}
     for k, v in tags.items():
         parts = k.split("/")
-        kk = k if parts[0] in ("ctor", "csr", "verdict", "exc", "idx_dtype", "narrow-nnz", "cscnd") else parts[0] + "/*/" + parts[-1]
+        kk = k if parts[0] in ("ctor", "csr", "verdict", "exc", "idx_dtype", "narrow-nnz", "cscnd", "special-fill") else parts[0] + "/*/" + parts[-1]
         agg[kk] = agg.get(kk, 0) + v
     cov["branch_tags"] = dict(sorted(agg.items()))
     cov["per_operation"] = dict(sorted(tags.items()))
